@@ -672,4 +672,262 @@ theorem C07_depth_irrelevant (s : St) (k : Nat) (inv : Inv) (d : Nat) :
   unfold leafOutcome leafSig behOutcome
   cases s.halt <;> cases (s.gone || (!inv.bg && s.cancelled.contains k)) <;> cases inv.beh <;> rfl
 
+/-! ## Names looked up on a reused VM (`vm.Get`, `vm.GlobalNames`, `risor.Call`'s RunCode + Get + Call)
+
+The code objects a reused VM runs lay their globals out differently, so one NAME lives in
+different SLOTS from one invocation to the next.  `lookPairs h` lists, for every look-up the host
+makes after an invocation of the history `h` (`LInv`: the invocation, the layout of the code
+object compiled for it, the names asked for before and after it), the answer on the reused VM
+(Impl: `get`, a scan of the active code's symbol table) and the answer the Spec demands (the same
+look-up after the same invocation on a fresh VM; `none` where the property demands nothing by
+itself, see `specGet`). -/
+
+/-- **The property for look-ups, in full**: every name resolves after every invocation as it
+    does after the same invocation on a fresh VM.  It does NOT hold for the code as it is (a
+    `RunCode` whose cancellation the reset lost executes definitions that a fresh VM never
+    reaches: `C07_lookups_counterexample_lost`). -/
+def C07_lookups_full : Prop :=
+  ∀ h : List LInv, ∀ p ∈ lookPairs h, ∀ x, p.2 = some x → p.1 = x
+
+/-- **One invocation, any reused VM**: for every run-state `s` and name storage `g` that earlier
+    invocations (any number, any kinds, any endings, any layouts, any look-ups) can leave, every
+    invocation `inv`, every layout and every name `n`: unless the reset loses the cancellation of
+    the invocation's context (known finding), the name resolves after the invocation exactly as
+    the Spec demands - whatever slot it had in the code objects that ran before. -/
+theorem C07_lookup_step (g : GSt) (s : St) (k : Nat) (inv : Inv) (lay : Lay) (n : GName) (x : Got)
+    (hg : Good s k) (gg : GGood g s k) (hl : lostFires s k inv = false)
+    (hs : specGet s k inv lay n = some x) : get (ginvoke g s k inv lay) n = x := by
+  have hcut : cut s k inv = dead s k inv := by
+    unfold cut; unfold lostFires at hl
+    cases hd : dead s k inv <;> cases hlo : loses s k inv <;> simp_all
+  unfold specGet at hs
+  cases hk : inv.kind with
+  | runCode =>
+    simp only [hk] at hs
+    rw [(get_after_runCode g s k inv lay n hg gg hk).1, hcut]
+    exact Option.some.inj hs
+  | call =>
+    simp only [hk] at hs
+    split at hs
+    · cases hs
+    · rename_i h
+      rw [(get_after_setup g s k inv lay n hg hk (by simpa using h)).1]
+      exact Option.some.inj hs
+  | run =>
+    simp only [hk] at hs
+    split at hs
+    · rename_i h
+      rw [get_after_run g s k inv lay n hg gg hk h, hcut]
+      exact Option.some.inj hs
+    · cases hs
+
+/-- `vm.GlobalNames()` after an invocation that loads code is the symbol table of that code,
+    whatever the VM ran before (no guard needed) -/
+theorem C07_globalNames_step (g : GSt) (s : St) (k : Nat) (inv : Inv) (lay : Lay)
+    (ns : List GName) (hg : Good s k) (gg : GGood g s k)
+    (hs : specNames s k inv lay = some ns) : globalNames (ginvoke g s k inv lay) = ns := by
+  unfold specNames at hs
+  cases hk : inv.kind with
+  | runCode =>
+    simp only [hk] at hs
+    rw [(get_after_runCode g s k inv lay .nosuch hg gg hk).2]
+    exact Option.some.inj hs
+  | call =>
+    simp only [hk] at hs
+    split at hs
+    · cases hs
+    · rename_i h
+      rw [(get_after_setup g s k inv lay .nosuch hg hk (by simpa using h)).2]
+      exact Option.some.inj hs
+  | run => simp [hk] at hs
+
+theorem lookPairsFrom_ok (s : St) (g : GSt) (k : Nat) (h : List LInv) (hg : Good s k)
+    (gg : GGood g s k) (hl : anyFrom lostFires s k (h.map (·.inv)) = false) :
+    ∀ l ∈ lrunFrom s g k h, ∀ p ∈ l.post, ∀ x, p.2 = some x → p.1 = x := by
+  induction h generalizing s g k with
+  | nil => intro l hl'; simp [lrunFrom] at hl'
+  | cons a rest ih =>
+    simp only [List.map_cons, anyFrom, Bool.or_eq_false_iff] at hl
+    intro l hmem
+    simp only [lrunFrom, List.mem_cons] at hmem
+    rcases hmem with hmem | hmem
+    · subst hmem
+      intro p hp x hx
+      simp only [looked, List.mem_map] at hp
+      obtain ⟨n, _, rfl⟩ := hp
+      exact C07_lookup_step g s k a.inv a.lay n x hg gg hl.1 hx
+    · exact ih _ _ _ (step_good s k a.inv hg) (ggood_step g s k a.inv a.lay hg gg) hl.2 l hmem
+
+/-- **The property for look-ups under the guard of the recorded defect**: in every history (any
+    length, any kinds, endings, contexts, code objects, LAYOUTS and look-ups) in which no `RunCode`
+    loses the cancellation of its context, every name the host looks up after an invocation
+    resolves as after the same invocation on a fresh VM. -/
+theorem C07_lookups_partial (h : List LInv) (hl : lostCancel (h.map (·.inv)) = false) :
+    ∀ p ∈ lookPairs h, ∀ x, p.2 = some x → p.1 = x := by
+  intro p hp
+  simp only [lookPairs, lrun, List.mem_flatMap] at hp
+  obtain ⟨l, hl', hp⟩ := hp
+  exact lookPairsFrom_ok (fresh 0) {} 0 h (good_fresh 0 0) (ggood_fresh 0 0) hl l hl' p hp
+
+
+/-- a context that is cancelled during the first `RunCode` is handed to a second one, whose
+    cancellation the reset loses: its definitions are executed; the host looks `who` up -/
+def witnessLookLost : List LInv :=
+  [ { inv := { kind := .runCode, beh := .selfCancel, depth := 0, pend := 0, v := 2, bump := 0, bg := false, imp := false, pre := [], during := [] } },
+    { inv := { kind := .runCode, beh := .normal, depth := 0, pend := 0, v := 3, bump := 0, bg := false, imp := false, pre := [], during := [], ctx := some 0, sched := .lost },
+      post := [.who] } ]
+
+theorem C07_lookups_counterexample_lost : ¬ C07_lookups_full := by
+  intro h
+  have := h witnessLookLost (.val (.int 101), some (.val .unbound)) (by decide) _ rfl
+  exact absurd this (by decide)
+
+example : lookPairs witnessLookLost = [(.val (.int 101), some (.val .unbound))] := by decide
+example : lostCancel (witnessLookLost.map (·.inv)) = true := by decide
+
+/-- **Independent of the VM's history**: after a `RunCode` the answer to every look-up is the
+    same on ANY two reused VMs (whatever they ran, loaded, defined and were asked before), given
+    only that the run is or is not stopped at once by its dead context on both. -/
+theorem C07_lookup_independent_of_history (g₁ g₂ : GSt) (s₁ s₂ : St) (k : Nat) (inv : Inv)
+    (lay : Lay) (n : GName) (h₁ : Good s₁ k) (h₂ : Good s₂ k) (gg₁ : GGood g₁ s₁ k)
+    (gg₂ : GGood g₂ s₂ k) (hk : inv.kind = .runCode) (hc : cut s₁ k inv = cut s₂ k inv) :
+    get (ginvoke g₁ s₁ k inv lay) n = get (ginvoke g₂ s₂ k inv lay) n ∧
+    globalNames (ginvoke g₁ s₁ k inv lay) = globalNames (ginvoke g₂ s₂ k inv lay) := by
+  obtain ⟨a1, a2⟩ := get_after_runCode g₁ s₁ k inv lay n h₁ gg₁ hk
+  obtain ⟨b1, b2⟩ := get_after_runCode g₂ s₂ k inv lay n h₂ gg₂ hk
+  rw [a1, a2, b1, b2, hc]
+  exact ⟨rfl, rfl⟩
+
+/-- **A name's slot does not matter**: after `RunCode` of a code object with ANY layout (wherever
+    the layout puts them, wherever the code objects that ran before had them) `who` is the mark of
+    THAT code object and every host name it was compiled with is the host's object. -/
+theorem C07_who_and_hosts_after_runCode (g : GSt) (s : St) (k : Nat) (inv : Inv) (lay : Lay)
+    (hg : Good s k) (gg : GGood g s k) (hk : inv.kind = .runCode) (hc : cut s k inv = false) :
+    get (ginvoke g s k inv lay) .who = .val (.int (100 + codeOf k inv)) ∧
+    ∀ i, GName.host i ∈ hostTbl lay.hset → get (ginvoke g s k inv lay) (.host i) = .val (.host i) := by
+  refine ⟨?_, fun i hi => ?_⟩
+  · rw [(get_after_runCode g s k inv lay .who hg gg hk).1, hc]
+    have h1 : GName.who ∈ defNames lay := by unfold defNames; simp
+    have h2 : GName.who ∈ codeTbl lay := by unfold codeTbl; exact List.mem_append_right _ h1
+    simp [codeGet, h1, h2, defVal, whoVal]
+  · rw [(get_after_runCode g s k inv lay (.host i) hg gg hk).1, hc]
+    have h2 : GName.host i ∈ codeTbl lay := by unfold codeTbl; exact List.mem_append_left _ hi
+    have h1 : GName.host i ∉ defNames lay := by
+      unfold defNames; cases lay.swap <;> simp
+    simp [codeGet, h1, h2, initVal]
+
+/-- **A `Call` of a function of the code an earlier invocation loaded changes no answer**: every
+    name resolves after the Call as before it, and `GlobalNames()` is unchanged -/
+theorem C07_call_keeps_globals (g : GSt) (s : St) (k : Nat) (inv : Inv) (lay : Lay) (n : GName)
+    (hg : Good s k) (hk : inv.kind = .call) (hc : (preState s k inv).hasCode = true) :
+    get (ginvoke g s k inv lay) n = get g n ∧
+    globalNames (ginvoke g s k inv lay) = globalNames g := by
+  rw [call_keeps_globals g s k inv lay hg hk hc]
+  exact ⟨rfl, rfl⟩
+
+/-- the pair (run-state, name storage) after a history -/
+def lfinalFrom (s : St) (g : GSt) (k : Nat) : List LInv → St × GSt
+  | [] => (s, g)
+  | x :: rest => lfinalFrom (invoke s k x.inv).1 (ginvoke g s k x.inv x.lay) (k + 1) rest
+
+theorem lfinalFrom_good (s : St) (g : GSt) (k : Nat) (h : List LInv) (hg : Good s k)
+    (gg : GGood g s k) (hl : Linked g s) :
+    Good (lfinalFrom s g k h).1 (k + h.length) ∧ GGood (lfinalFrom s g k h).2 (lfinalFrom s g k h).1 (k + h.length) ∧
+    Linked (lfinalFrom s g k h).2 (lfinalFrom s g k h).1 := by
+  induction h generalizing s g k with
+  | nil => exact ⟨hg, gg, hl⟩
+  | cons a rest ih =>
+    have := ih _ _ _ (step_good s k a.inv hg) (ggood_step g s k a.inv a.lay hg gg)
+      (linked_step g s k a.inv a.lay hg gg hl)
+    simp only [lfinalFrom, List.length_cons]
+    rw [show k + (rest.length + 1) = k + 1 + rest.length by omega]
+    exact this
+
+/-- **`Get` + `Call` fetches the right function, after any history**: after every history of
+    invocations with any layouts and look-ups, a further `Call` - whether it has to load
+    definitions or calls into the code an earlier invocation left active - finds under the name it
+    asks for the function of that name OF THE ACTIVE CODE (never a function, a variable or a host
+    object that happens to live in the slot the name had in a code object that ran earlier). -/
+theorem C07_call_fetches_active_function (h : List LInv) (inv : Inv) (lay : Lay)
+    (hk : inv.kind = .call) :
+    let s := (lfinalFrom (fresh 0) {} 0 h).1
+    let g := ginvoke (lfinalFrom (fresh 0) {} 0 h).2 s h.length inv lay
+    ∃ w, activeWrap g = some w ∧ get g (callTarget g) = .val (.fn (callTarget g) w.owner) := by
+  intro s g
+  obtain ⟨hg, gg, hl⟩ := lfinalFrom_good (fresh 0) {} 0 h (good_fresh 0 0) (ggood_fresh 0 0)
+    (linked_fresh 0)
+  simp only [Nat.zero_add] at hg gg
+  have hstep := linked_step _ s h.length inv lay hg gg hl
+  have hc : (invoke s h.length inv).1.hasCode = true := by
+    rw [invoke_hasCode s h.length inv hg]; simp [hk]
+  obtain ⟨w, hw, hs⟩ := hstep hc
+  refine ⟨w, hw, ?_⟩
+  show (match activeWrap g with | none => Got.noCode | some w => scan w.slots (callTarget g)) = _
+  rw [hw]
+  exact hs
+
+
+/-- the name storage after each invocation of a history -/
+def gstatesFrom (s : St) (g : GSt) (k : Nat) : List LInv → List GSt
+  | [] => []
+  | x :: rest =>
+    ginvoke g s k x.inv x.lay :: gstatesFrom (invoke s k x.inv).1 (ginvoke g s k x.inv x.lay) (k + 1) rest
+
+/-- **Look-ups leave no trace**: the storage every later look-up (and every later invocation)
+    reads is the same whichever names the host asked for, and however often, before: two
+    histories that differ only in their look-ups pass through the same states.  (`get` is a
+    function of the state - `Get` and `GlobalNames` assign no field of the VM, tie
+    `get_is_read_only_tie`.) -/
+theorem lookups_leave_no_trace (s : St) (g : GSt) (k : Nat) (h h' : List LInv)
+    (e : h.map (fun x => (x.inv, x.lay)) = h'.map (fun x => (x.inv, x.lay))) :
+    gstatesFrom s g k h = gstatesFrom s g k h' := by
+  induction h generalizing s g k h' with
+  | nil => cases h' <;> simp_all [gstatesFrom]
+  | cons a rest ih =>
+    cases h' with
+    | nil => simp at e
+    | cons b rest' =>
+      simp only [List.map_cons, List.cons.injEq, Prod.mk.injEq] at e
+      obtain ⟨⟨e1, e2⟩, e3⟩ := e
+      simp only [gstatesFrom, e1, e2]
+      rw [ih _ _ _ rest' e3]
+
+/-- the answers of a history's look-ups are the answers of `get` in those states -/
+theorem lrunFrom_post (s : St) (g : GSt) (k : Nat) (h : List LInv) :
+    (lrunFrom s g k h).map (fun l => l.post.map (·.1)) =
+      List.zipWith (fun g' (x : LInv) => x.post.map (get g')) (gstatesFrom s g k h) h := by
+  induction h generalizing s g k with
+  | nil => rfl
+  | cons a rest ih =>
+    simp only [lrunFrom, gstatesFrom, List.map_cons, List.zipWith_cons_cons, ih, looked,
+      List.map_map]
+    rfl
+
+/-- two code objects that differ by one filler function: `act` lives in slot 8 of the first and
+    in slot 9 of the second; the host asks for `act` after each -/
+def witnessMoved : List LInv :=
+  [ { inv := { kind := .runCode, beh := .normal, depth := 0, pend := 0, v := 2, bump := 0, bg := false, imp := false, pre := [], during := [] },
+      post := [.act 0] },
+    { inv := { kind := .runCode, beh := .normal, depth := 0, pend := 0, v := 3, bump := 0, bg := false, imp := false, pre := [], during := [] },
+      lay := { fills := 1 }, post := [.act 0] } ]
+
+/-- **The forbidden variant is not independent of the VM's history** (contrast): with a per-VM
+    cache name ↦ slot that survives `RunCode`'s switch to another code object, the look-up of
+    `act` after the second `RunCode` answers with the function `over` (what lives in the slot `act`
+    had in the FIRST code object); asked on a VM that ran the second code object alone it answers
+    `act`, as `get` does in both cases. -/
+theorem cachedGet_depends_on_history :
+    lrunCachedFrom [] (fresh 0) {} 0 witnessMoved =
+      [[.val (.fn (.act 0) (.code 0))], [.val (.fn (.over 0) (.code 1))]] ∧
+    lrunCachedFrom [] (fresh 0) {} 1 (witnessMoved.drop 1) = [[.val (.fn (.act 0) (.code 1))]] ∧
+    (lrun witnessMoved).map (fun l => l.post.map (·.1)) =
+      [[.val (.fn (.act 0) (.code 0))], [.val (.fn (.act 0) (.code 1))]] := by
+  decide
+
+example : lostCancel (witnessMoved.map (·.inv)) = false := by decide
+example : (lrun witnessMoved).map (·.names) =
+    [codeTbl {}, codeTbl { fills := 1 }] := by decide
+example : slotOf ((codeTbl {}).map (fun n => (n, GVal.unbound))) (.act 0) = some 8 ∧
+    slotOf ((codeTbl { fills := 1 }).map (fun n => (n, GVal.unbound))) (.act 0) = some 9 := by decide
+
 end Risor.C07
